@@ -193,11 +193,14 @@ pub struct HistScenario {
     pub key_seed: u64,
     /// forced-expiry read of each interrupted `go movetime`, in order
     pub expiries: Vec<u64>,
+    /// other parameters the interrupted `go`s carry besides `movetime` (e.g. " searchmoves
+    /// e2e4 d2d4", " nodes 400000000"): whatever they set up must be gone with the search
+    pub go_extra: String,
 }
 
 impl HistScenario {
     pub fn to_json(&self) -> Value {
-        json!({"history": {"position_line": self.position_line, "key_seed": self.key_seed, "expiries": self.expiries}})
+        json!({"history": {"position_line": self.position_line, "key_seed": self.key_seed, "expiries": self.expiries, "go_extra": self.go_extra}})
     }
     pub fn from_json(v: &Value) -> Option<HistScenario> {
         let v = v.get("history")?;
@@ -205,6 +208,7 @@ impl HistScenario {
             position_line: v["position_line"].as_str()?.to_string(),
             key_seed: v["key_seed"].as_u64().unwrap_or(0),
             expiries: v["expiries"].as_array()?.iter().filter_map(|x| x.as_u64()).collect(),
+            go_extra: v["go_extra"].as_str().unwrap_or("").to_string(),
         })
     }
 }
@@ -249,6 +253,9 @@ pub fn run_history(sc: &HistScenario, reference: &mut Reference) -> ScenarioOutc
         return out;
     };
     out.probes.add("history_scenarios", 1);
+    if !sc.go_extra.is_empty() {
+        out.probes.add("history_scenarios_whose_interrupted_gos_carry_other_parameters", 1);
+    }
     out.probes.add("history_positions_recorded", len0 as u64);
     if v0.iter().any(|x| *x) {
         out.probes.add("history_scenarios_with_a_repeating_successor", 1);
@@ -259,7 +266,7 @@ pub fn run_history(sc: &HistScenario, reference: &mut Reference) -> ScenarioOutc
             let ord = st.searches.len() as u64;
             st.clock.forced_expiry.push((ord, *j));
         }
-        let o = sess.cmd(&format!("go movetime {}", HUGE_LIMIT.as_millis()));
+        let o = sess.cmd(&format!("go movetime {}{}", HUGE_LIMIT.as_millis(), sc.go_extra));
         match o {
             Outcome::Returned => {}
             Outcome::Aborted(Abort::NodeCap) => {
@@ -418,7 +425,24 @@ pub fn gen_history_scenario(rng: &mut Rng) -> HistScenario {
     // half of the sessions are cut inside the first iteration (nothing deeper than the final
     // depth-1 search gets cached, so its value can be judged)
     let early = rng.chance(1, 2);
-    HistScenario { position_line: line, key_seed: rng.next_u64(), expiries: (0..n).map(|_| if early { rng.range(1, 30) } else { rng.log_range(1, 4000) }).collect() }
+    // one session in three: the interrupted go's carry further parameters
+    let go_extra = if rng.chance(1, 3) {
+        let mut p = start.clone();
+        for m in &moves {
+            p = p.make(m);
+        }
+        let mut ms = crate::gen::moves_uci(&p.legal_moves());
+        rng.shuffle(&mut ms);
+        let k = (rng.range(1, 3) as usize).min(ms.len());
+        match rng.below(4) {
+            0 | 1 => format!(" searchmoves {}", ms[..k].join(" ")),
+            2 => " nodes 400000000".to_string(),
+            _ => " mate 30".to_string(),
+        }
+    } else {
+        String::new()
+    };
+    HistScenario { position_line: line, key_seed: rng.next_u64(), expiries: (0..n).map(|_| if early { rng.range(1, 30) } else { rng.log_range(1, 4000) }).collect(), go_extra }
 }
 
 pub fn replay_value(v: &Value) -> Vec<Violation> {
@@ -461,6 +485,11 @@ pub fn replay_value(v: &Value) -> Vec<Violation> {
 pub fn shrink_value(v: &Value) -> Vec<Value> {
     if let Some(h) = HistScenario::from_json(v) {
         let mut out = vec![];
+        if !h.go_extra.is_empty() {
+            let mut n = h.clone();
+            n.go_extra = String::new();
+            out.push(n.to_json());
+        }
         if h.expiries.len() > 1 {
             for i in 0..h.expiries.len() {
                 let mut n = h.clone();
